@@ -66,6 +66,7 @@ def Ctx.det : Ctx → Prop
   | .efloat c => c.k = some 0 ∧ 1 ≤ c.mpb.p
   | .mpfix _ _ k _ _ => k = some 0
   | .mpbfix c => c.k = some 0
+  | .exp _ => False      -- the exponential family is not covered by this lemma
 
 theorem round_rto_float (x : RF) (p q : Nat) (minN : Option Int) (rm : RM)
     (hc : x.c ≠ 0) (hp : 1 ≤ p) (hq : p + 2 ≤ q) :
@@ -168,6 +169,7 @@ theorem rto_normalize (C : Ctx) (hC : C.det) (x : RF) (hx : x.c ≠ 0) :
       Res.agree (C.roundAtCore (.fin x') none false 0) (C.roundAtCore (.fin x) none false 0) := by
   cases C with
   | real => exact absurd hC (by simp [Ctx.det])
+  | exp c => exact absurd hC (by simp [Ctx.det])
   | mp p rm k o =>
     obtain ⟨hk, hp⟩ := hC
     subst hk
